@@ -237,7 +237,10 @@ class LocalDirectoryContext(Context):
                 def mangle_message(message):
                     return '"' + message.replace('"', '""') + '"'
 
-                fh.write(f'{ctxpath},{date},{severity},{mangle_message(message)}\n')
+                # NOTE: Context and model names can contain commas and quotes
+                fh.write(
+                    f'{mangle_message(ctxpath)},{date},{severity},{mangle_message(message)}\n'
+                )
 
     def retrieve_log(self, level: Literal['all', 'current', 'lower'] = 'all') -> pd.DataFrame:
         log_path = self._log_path
